@@ -27,11 +27,15 @@ type tagR struct {
 	tag     int
 	reading *[8]bool
 	release chan struct{}
+	eof     bool // the request body is already at EOF: the output half comes and goes
 }
 
 func (r tagR) Read(p []byte) (int, error) {
 	r.reading[r.tag] = true
-	<-r.release
+	if !r.eof {
+		<-r.release
+	}
+	r.reading[r.tag] = false
 	return 0, io.EOF
 }
 
@@ -63,10 +67,11 @@ func HarnessC06Pairing() {
 			done <- 7
 		}()
 	}
+	eofN := verifParam("eof") // requests 1..eofN have an empty body (their output half ends at once)
 	for i := 1; i <= n; i++ {
 		tag := i
 		go func() {
-			b.ConnectInOut(ctx, sl, "R", tagW{tag: tag, last: &lastW, n: &nW}, tagR{tag: tag, reading: &reading, release: release})
+			b.ConnectInOut(ctx, sl, "R", tagW{tag: tag, last: &lastW, n: &nW}, tagR{tag: tag, reading: &reading, release: release, eof: tag <= eofN})
 			done <- tag
 		}()
 	}
@@ -74,26 +79,14 @@ func HarnessC06Pairing() {
 	if pre != 0 {
 		total++
 	}
-	// wait until the broker reports a complete shell, or everybody has gone away
-	formed := false
 	returned := 0
-	ioReturned := 0
-	for !formed && ioReturned < n {
-		select {
-		case ev := <-b.evCh:
-			if ev.Type == EventTypeConnected {
-				formed = true
-			}
-		case t := <-done:
-			returned++
-			if t != 7 {
-				ioReturned++
-			}
-		}
-	}
+	// run until nothing can move any more, then look at what is attached
+	verifQuiesce()
+	b.mu.Lock()
+	formed := b.cancelIn != nil && b.cancelOut != nil
+	b.mu.Unlock()
 	if formed {
 		ich <- "id"
-		// let the attached input half deliver the line
 		verifQuiesce()
 		verifAssert(nW == 1, "C06.exactly-one-input-half-gets-the-line")
 		readers := 0
